@@ -73,8 +73,9 @@ def describe_marshal(ev, obs, entry):
         def norm(t):        # drop every pair of parentheses directly around -N (to a fixpoint), read -0 as 0
             while True:
                 u = re.sub(r"\(-(\d+)\)", r"-\1", t)
+                u = re.sub(r"(?<![\w.\"])-0(?![\w.])", "0", u)
                 if u == t:
-                    return re.sub(r"(?<![\w.\"])-0(?![\w.])", "0", t)
+                    return t
                 t = u
         if norm(t1) == norm(t2):
             why = why.replace("second rendering differs", "second rendering differs only around a negated integer literal")
@@ -233,7 +234,7 @@ def run_C12(ctx):
         add_m3(ctx, "textform", "unicode", "text", 1, params={"sweep": "0-0x10ffff", "step": "257"}, shards=2)
     else:
         vlib.LIGHT_JVM = False
-        add_m3(ctx, "textform", "unicode", "text", 1, params={"sweep": "0-0x10ffff", "step": "1"}, shards=vlib.MAX_SHARDS)
+        add_m3(ctx, "textform", "unicode", "text", 1, params={"sweep": "0-0x10ffff", "step": "1"}, shards=4 * vlib.MAX_SHARDS)
     return vlib.finish(ctx, confirm_all)
 
 
@@ -659,7 +660,8 @@ KINDS["schema"] = dict(module="Trace_Schema", shrink=None, describe=describe_sch
 def run_schema(ctx, focus, quick_graph_stride):
     vlib.TRACE_CFG["Trace_Schema"] = 'CONSTANT Focus = "%s"\n' % focus
     q = ctx.quick
-    vlib.tlc_check(ctx, "m1.graphs", "MC_SchemaGen", 'INIT Init\nNEXT Next\nCONSTANT Family = "graphs"\nINVARIANT Total\nCHECK_DEADLOCK FALSE\n',
+    g3 = "CONSTANT NodesN = 3\nCONSTANT GStride = 1\n"
+    vlib.tlc_check(ctx, "m1.graphs", "MC_SchemaGen", 'INIT Init\nNEXT Next\nCONSTANT Family = "graphs"\nINVARIANT Total\nCHECK_DEADLOCK FALSE\n' + g3,
                    ["mc/MC_SchemaGen.tla"])
 
     def thin(stride):
@@ -669,9 +671,13 @@ def run_schema(ctx, focus, quick_graph_stride):
             return case
         return f
     add_gen_exec_validate(ctx, "schema", "names", "MC_SchemaGen", ["mc/MC_SchemaGen.tla"],
-                          cfg=GEN_CFG + 'CONSTANT Family = "names"\nINVARIANT Total\n', min_cases=150, timeout=7200)
+                          cfg=GEN_CFG + 'CONSTANT Family = "names"\nINVARIANT Total\n' + g3, min_cases=150, timeout=7200)
     add_gen_exec_validate(ctx, "schema", "graphs", "MC_SchemaGen", ["mc/MC_SchemaGen.tla"],
-                          cfg=GEN_CFG + 'CONSTANT Family = "graphs"\n', min_cases=3500, timeout=7200)
+                          cfg=GEN_CFG + 'CONSTANT Family = "graphs"\n' + g3, min_cases=3500, timeout=7200)
+    if not q:       # four nodes: every 13th of the 65536 graphs per relation (about 5000 graphs, 35000 schemas), M1 included
+        add_gen_exec_validate(ctx, "schema", "graphs4", "MC_SchemaGen", ["mc/MC_SchemaGen.tla"],
+                              cfg=GEN_CFG + 'CONSTANT Family = "graphs"\nINVARIANT Total\nCONSTANT NodesN = 4\nCONSTANT GStride = 13\n',
+                              min_cases=20000, timeout=7200)
 
 
 @prop("C17")
